@@ -62,12 +62,12 @@ EXTRA = {
  "C10": " Scale runs (33 000-70 000 pairs, Get/GetKey by arithmetic, through removal, Clear and re-use). One history in two hundred contains a long run (4200 - 70 000 pairs) of operations that cancel out, taking whatever the container counts over its lifetime past 4096 and 65 536.",
  "C11": " Value shapes include containers as values of containers (recursive ToJSON); the key pools end in pairs that collide under common 32-bit hashes. The histories contain read-only and enumerable calls (what a read leaves behind must not outlive a restart); the reloaded container's iterators are walked both ways and Each is judged against them. Key-value kinds over uint64, uint, uint8, int8 and int64 keys at the ends of their ranges. Reloaded values are compared with the Go values encoding/json reads from the document (reflect.DeepEqual, dynamic types included).",
  "C12": " Two further fault kinds: F15 permuted elements/members and F16 a second member whose name is another spelling of a present key; one large run in three produces documents beyond 64 KiB. F17 foreign writer: documents written under another order (several distinct keys of the document are one key for the loading container's comparator) and, in a probe of its own, freely spelled member names for a key type that implements encoding.TextUnmarshaler. The histories contain read-only and enumerable calls, one load in three is directly preceded by one; after every load the iterators are walked both ways and Each/Any/All/Find are judged against them. F18 null elements, also as the second half of reject-then-accept pairs (a document with one wrongly typed element after good ones directly followed by an accepted one with nulls or partial structs, half the time right after a Clear).",
- "C13": " Algebra calls with a TreeSet of another comparator function are interleaved (result unjudged, operands and later same-comparator algebra judged); scale runs with operands of 33 000-70 000 members. Every algebra call is made twice: the second result is left alone while the first result and both operands are mutated (also through Clear, a load that fails and a load that succeeds), must still hold what the call returned, and is then emptied.",
- "C14": " Float elements (both zeros, infinities, NaN keys for the tree kinds); a result must serialise like a fresh container holding the same elements.",
+ "C13": " Algebra calls with a TreeSet of another comparator function are interleaved (result unjudged, operands and later same-comparator algebra judged); scale runs with operands of 33 000-70 000 members. Every algebra call is made twice: the second result is left alone while the first result and both operands are mutated (also through Clear, a load that fails and a load that succeeds), must still hold what the call returned, and is then emptied. One run in 25 has operands two orders of magnitude apart in size.",
+ "C14": " Float elements (both zeros, infinities, NaN keys for the tree kinds); a result must serialise like a fresh container holding the same elements. One run in 30 has a receiver of 70-600 elements; index-threshold predicates make whole blocks of positions match.",
  "C15": " Scale runs: Clear of 33 000-70 000 elements compared with a fresh instance. One history in two hundred contains a long run (4200 - 70 000 pairs) of operations that cancel out, taking whatever the container counts over its lifetime past 4096 and 65 536.",
  "C16": " A callee must also leave the slice it was given, and the spare capacity behind it, unchanged. Two slices returned by Values()/Keys() never share memory: writing to (or sorting) a later one leaves an earlier one as it was. The container's own Values() is handed back to Add/Insert/Push. GetSortedValues is probed over uint8, string (words differing first at byte 8, 9 or 16), int and uint64; one scribble in three touches every other held slice only. A mutation directly before the caller takes slices is not observed by the harness in between (the caller's Values() is the first read after it).",
- "C17": " The catalogue includes containers as values of containers (a call that blocks for ever is reported through the Go runtime's deadlock fatal error, confirmed from the regenerated plan) and algebra between TreeSets of different comparator functions. An extreme-configurations step: B-trees of order 2^62 .. MaxInt, and bulk loads of about 9000 elements into a heap and a priority queue under a comparator that notes overlapping calls (a library that enters the caller's comparator from several goroutines does not return normally for comparators that are not re-entrant).",
- "C18": " Peak-and-shrink runs (Fill to 1100-3000, one bulk removal), deep-tree runs (8192+ ascending keys; both readers run the whole read catalogue in the same order before any sequential reference call) and Contains with 33-48 arguments.",
+ "C17": " The catalogue includes containers as values of containers (a call that blocks for ever is reported through the Go runtime's deadlock fatal error, confirmed from the regenerated plan) and algebra between TreeSets of different comparator functions. An extreme-configurations step: B-trees of order 2^62 .. MaxInt, and bulk loads of about 9000 elements into a heap and a priority queue under a comparator that notes overlapping calls (a library that enters the caller's comparator from several goroutines does not return normally for comparators that are not re-entrant). A HugeAdd step: one variadic Add of more than 2^24 values. An operation that blocks for ever under library code (a lock, channel or wait) is detected by a stall detector and confirmed from the regenerated plan in a fresh process.",
+ "C18": " Peak-and-shrink runs (Fill to 1100-3000, one bulk removal), deep-tree runs (8192+ ascending keys; both readers run the whole read catalogue in the same order before any sequential reference call) and Contains with 33-48 arguments. A reader that blocks for ever under library code (a mutex held across a callback) is detected by the stall detector and confirmed in a fresh process.",
 }
 
 NOTE = ("Trusted: Go toolchain and encoding/json; the go/ast instrumentation of the scratch copy (selftest transparency); the reference models and "
